@@ -197,9 +197,11 @@ class Runnable(ABC):  # pylint: disable=too-many-instance-attributes
         """
         Stop the service, allowing any do() to complete first.
         """
+        # the final-stop flag must be visible before the loop can see the stopping flag and leave:
+        # run() decides in its finally block whether done() is called
+        self.__shutdown = forever
         self.__stopping = True
         self.wake()
-        self.__shutdown = forever
         thread = self.__thread  # otherwise race condition -- self.__thread can change value in another thread
         if thread:
             if threading.current_thread() != thread:
